@@ -27,15 +27,17 @@ inductive Exn where
   | cryptoRaise     -- an exception other than ValueError out of SessionKeys.decrypt_str (RuntimeError "Decryption failed")
   | relayRaise      -- anything raised while relaying
   | handler         -- anything raised by a message handler body
+  | keyError        -- a raising dict access in Network.get_verified_by_address (runs before the prefix gate, outside any try)
 deriving Repr, DecidableEq, Inhabited
 
 def Exn.name : Exn → String
   | .indexError => "IndexError" | .structError => "struct.error" | .cryptoRaise => "decrypt" | .relayRaise => "relay"
-  | .handler => "handler"
+  | .handler => "handler" | .keyError => "KeyError"
 
 /-- observable events -/
 inductive Ev where
   | called (lid : Nat)                                       -- listener `lid`'s on_packet was invoked
+  | sender (lid : Nat) (peer : Option Nat)                   -- Community.on_packet resolved the sender address to this verified peer object
   | pub (lid : Nat) (pfx : Bytes) (msg : Nat)                -- a decode_map handler of the overlay with prefix `pfx` was entered
   | priv (lid : Nat) (pfx : Bytes) (msg circuit : Nat) (data : Bytes)  -- a decode_map_private handler was entered
 deriving Repr, DecidableEq, Inhabited
@@ -58,11 +60,20 @@ structure Overlay where
   tunnel : Bool           -- decode_map[cellMsgId] is TunnelCommunity.on_cell
 deriving Repr, Inhabited
 
-/-- handler bodies are outside the model -/
+/-- registry calls a listener may make on its endpoint while it is handling a datagram (re-entrancy) -/
+inductive RegOp where
+  | add (l : Nat)                    -- endpoint.add_listener
+  | addp (l : Nat) (p : Bytes)       -- endpoint.add_prefix_listener
+  | rm (l : Nat)                     -- endpoint.remove_listener (self-detach, unload, one-shot listeners …)
+  | setOpen (b : Bool)               -- endpoint.close() / open()
+deriving Repr, DecidableEq, Inhabited
+
+/-- handler bodies are outside the model: they may raise, and they may call back into the endpoint's registry -/
 structure Env where
   pubRaises : Nat → Nat → Bytes → Bool
   privRaises : Nat → Nat → Bytes → Nat → Bool
   relayRaises : Nat → Bytes → Bool
+  effects : Nat → Bytes → List RegOp := fun _ _ => []   -- what listener `lid` does to the registry while handling `data`
 
 /-- outcome of removing the onion layers of a cell of a known circuit (computed by the real crypto in the harness) -/
 inductive Dec where
@@ -102,6 +113,82 @@ def cellToBin (pfx : Bytes) (c : Cell) : Bytes :=
 def cellUnwrap (pfx : Bytes) (c : Cell) : Bytes :=
   pfx ++ c.message.take 1 ++ beEnc 4 c.cid ++ c.message.drop 1
 
+/-! ### Network.get_verified_by_address — the sender lookup Community.on_packet performs BEFORE its prefix gate
+
+  Peer *objects* have an identity (`oid`), a key and mutable addresses; `verified_by_public_key_bin` maps keys to objects,
+  `reverse_ip_lookup` is an LRU cache address → object.  `Gen.lookupDictSafe` (from the AST) says whether every dict
+  access of the function is of the non-raising kind (`.get`, `.pop(k, default)`, `in`); if not, the validation of a
+  cached entry raises KeyError when the cached object's key has left the index. -/
+
+structure PeerObj where
+  oid : Nat
+  key : Nat
+  addrs : List Bytes
+deriving Repr, DecidableEq, Inhabited
+
+structure NetS where
+  objs : List PeerObj := []              -- every Peer object the harness created (by identity)
+  verified : List Nat := []              -- verified_peers (object ids)
+  index : List (Nat × Nat) := []         -- verified_by_public_key_bin: key → object id
+  cache : List (Bytes × Nat) := []       -- reverse_ip_lookup, oldest first
+  cap : Nat := 500
+deriving Repr, Inhabited
+
+def NetS.obj (s : NetS) (oid : Nat) : Option PeerObj := s.objs.find? (·.oid == oid)
+def NetS.keyOf (s : NetS) (oid : Nat) : Nat := ((s.obj oid).map (·.key)).getD 0
+def NetS.hasAddr (s : NetS) (oid : Nat) (a : Bytes) : Bool := ((s.obj oid).map (·.addrs.contains a)).getD false
+def NetS.indexGet (s : NetS) (k : Nat) : Option Nat := (s.index.find? (·.1 == k)).map (·.2)
+
+def cachePut (c : List (Bytes × Nat)) (a : Bytes) (oid : Nat) (cap : Nat) : List (Bytes × Nat) :=
+  let c' := c.filter (·.1 != a) ++ [(a, oid)]
+  if c'.length > cap then c'.drop 1 else c'
+
+/-- Network.get_verified_by_address -/
+def NetS.lookup (s : NetS) (a : Bytes) : Except Exn (Option Nat) × NetS :=
+  let cached := (s.cache.find? (·.1 == a)).map (·.2)
+  let s1 := { s with cache := s.cache.filter (·.1 != a) }          -- reverse_ip_lookup.pop(address, None)
+  let validated : Except Exn (Option Nat) :=
+    match cached with
+    | none => .ok none
+    | some oid =>
+      match s.indexGet (s.keyOf oid) with
+      | some o' => .ok (if o' == oid && s.hasAddr oid a then some oid else none)
+      | none => if Gen.lookupDictSafe then .ok none else .error .keyError
+  match validated with
+  | .error e => (.error e, s1)
+  | .ok (some oid) => (.ok (some oid), { s1 with cache := cachePut s1.cache a oid s.cap })
+  | .ok none =>
+    match s.verified.find? (fun oid => s.hasAddr oid a) with
+    | some oid => (.ok (some oid), { s1 with cache := cachePut s1.cache a oid s.cap })
+    | none => (.ok none, s1)
+
+/-- Network.add_verified_peer for a peer object with a non-blacklisted address -/
+def NetS.addVerified (s : NetS) (oid : Nat) : NetS :=
+  let k := s.keyOf oid
+  match s.indexGet k with
+  | some known =>     -- "this may just be an address update": known.addresses.update(peer.addresses)
+    let na := ((s.obj oid).map (·.addrs)).getD []
+    { s with objs := s.objs.map fun o => if o.oid == known then { o with addrs := na } else o }
+  | none => { s with verified := s.verified ++ [oid], index := s.index ++ [(k, oid)] }
+
+/-- Network.remove_peer (membership in the verified set is by key equality) -/
+def NetS.removePeer (s : NetS) (oid : Nat) : NetS :=
+  let k := s.keyOf oid
+  { s with verified := s.verified.filter (fun v => s.keyOf v != k), index := s.index.filter (·.1 != k) }
+
+/-- Network.remove_by_address -/
+def NetS.removeByAddress (s : NetS) (a : Bytes) : NetS :=
+  let gone := s.verified.filter (fun v => s.hasAddr v a)
+  { s with verified := s.verified.filter (fun v => !s.hasAddr v a),
+           index := s.index.filter (fun e => !gone.any (fun v => s.keyOf v == e.1)) }
+
+/-- peer.address = a (a single-interface peer: the address is replaced) -/
+def NetS.setAddr (s : NetS) (oid : Nat) (a : Bytes) : NetS :=
+  { s with objs := s.objs.map fun o => if o.oid == oid then { o with addrs := [a] } else o }
+
+def NetS.newObj (s : NetS) (oid key : Nat) (a : Bytes) : NetS :=
+  { s with objs := s.objs ++ [{ oid := oid, key := key, addrs := [a] }] }
+
 /-! ### the two demultiplexers -/
 
 /-- a handler whose body is abstract: the entry is observable, the body may raise -/
@@ -131,9 +218,13 @@ def onCell (env : Env) (lid : Nat) (o : Overlay) (data : Bytes) : Out :=
         else ([], none)
     else onPacketFromCircuit env lid o (cellUnwrap o.pfx c) c.cid
 
-/-- Community.on_packet -/
-def communityOnPacket (env : Env) (lid : Nat) (o : Overlay) (data : Bytes) : Out :=
+/-- Community.on_packet; `lk` is the outcome of `network.get_verified_by_address(source_address)`, the first thing it
+    does — before the prefix gate and outside the try/except, so an exception there propagates -/
+def communityOnPacket (env : Env) (lk : Except Exn (Option Nat)) (lid : Nat) (o : Overlay) (data : Bytes) : Out :=
   Out.andThen ([.called lid], none) fun _ =>
+  Out.andThen (match lk with
+               | .error e => ([.sender lid none], some e)
+               | .ok p => ([.sender lid p], none)) fun _ =>
   if o.pfx != data.take Gen.pubTake || data.length < Gen.pubMinLen then ([], none)
   else match data[Gen.pubIdx]? with
     | none => ([], some .indexError)
@@ -156,13 +247,13 @@ structure Crypto where
   maxRelayEarly : Nat
 deriving Repr, Inhabited
 
-def tunnelBranch (env : Env) (c : Crypto) (data : Bytes) : Out :=
+def tunnelBranch (env : Env) (lk : Except Exn (Option Nat)) (c : Crypto) (data : Bytes) : Out :=
   match c.tunnel with
   | none => ([], none)
-  | some (tl, o) => communityOnPacket env tl o data
+  | some (tl, o) => communityOnPacket env lk tl o data
 
 /-- PythonCryptoEndpoint.process_cell -/
-def processCell (env : Env) (dec : Nat → Bytes → Dec) (c : Crypto) (data : Bytes) : Out :=
+def processCell (env : Env) (dec : Nat → Bytes → Dec) (lk : Except Exn (Option Nat)) (c : Crypto) (data : Bytes) : Out :=
   match cellFromBin data with
   | .error e => ([], some e)
   | .ok cell =>
@@ -181,7 +272,7 @@ def processCell (env : Env) (dec : Nat → Bytes → Dec) (c : Crypto) (data : B
           | some m0 =>
             if (!cell.relayEarly && m0.toNat == 4) || c.maxRelayEarly == 0 then ([], none)
             else if cell.plaintext && !Gen.noCryptoPackets.contains m0.toNat then ([], none)
-            else tunnelBranch env c (cellToBin c.pfx { cell with message := m })
+            else tunnelBranch env lk c (cellToBin c.pfx { cell with message := m })
 
 /-- the msg-id test of PythonCryptoEndpoint.on_packet: index form raises on a 22-byte datagram, slice form cannot -/
 def cryptoIsCell (data : Bytes) : Except Exn Bool :=
@@ -190,14 +281,15 @@ def cryptoIsCell (data : Bytes) : Except Exn Bool :=
   | none => if Gen.cryptoIdxSafe then .ok false else .error .indexError
 
 /-- PythonCryptoEndpoint.on_packet -/
-def cryptoOnPacket (env : Env) (dec : Nat → Bytes → Dec) (lid : Nat) (c : Crypto) (data : Bytes) : Out :=
+def cryptoOnPacket (env : Env) (dec : Nat → Bytes → Dec) (lk : Except Exn (Option Nat)) (lid : Nat) (c : Crypto)
+    (data : Bytes) : Out :=
   Out.andThen ([.called lid], none) fun _ =>
   if c.pfx.isPrefixOf data then
     match cryptoIsCell data with
     | .error e => ([], some e)
-    | .ok true => catchAll Gen.cryptoCatchAll (processCell env dec c data)
-    | .ok false => tunnelBranch env c data
-  else tunnelBranch env c data
+    | .ok true => catchAll Gen.cryptoCatchAll (processCell env dec lk c data)
+    | .ok false => tunnelBranch env lk c data
+  else tunnelBranch env lk c data
 
 /-! ### Endpoint: listener registry and delivery -/
 
@@ -248,30 +340,89 @@ def Registry.removeListener (r : Registry) (l : Nat) : Registry :=
              let xs' := xs.filter (· != l)
              if sameSet xs' ls then none else some (p, xs') }
 
-def listenerOnPacket (env : Env) (dec : Nat → Bytes → Dec) (t : List (Nat × Listener)) (l : Nat) (data : Bytes) : Out :=
+def listenerOnPacket (env : Env) (dec : Nat → Bytes → Dec) (lk : Except Exn (Option Nat)) (t : List (Nat × Listener))
+    (l : Nat) (data : Bytes) : Out :=
   match lookupListener t l with
-  | some (.community o) => communityOnPacket env l o data
-  | some (.crypto c) => cryptoOnPacket env dec l c data
+  | some (.community o) => communityOnPacket env lk l o data
+  | some (.crypto c) => cryptoOnPacket env dec lk l c data
   | some .inert => ([.called l], none)
   | none => ([], none)
 
-/-- Endpoint._deliver_later -/
-def deliverLater (env : Env) (dec : Nat → Bytes → Dec) (r : Registry) (l : Nat) (data : Bytes) : Out :=
-  if r.isOpen && ((lookupPrefix r.prefixMap (data.take Gen.prefixLen)).isSome || r.listeners.contains l) then
-    listenerOnPacket env dec r.table l data
-  else ([], none)
+/-- the test of Endpoint._deliver_later -/
+def deliverCond (r : Registry) (l : Nat) (data : Bytes) : Bool :=
+  r.isOpen && ((lookupPrefix r.prefixMap (data.take Gen.prefixLen)).isSome || r.listeners.contains l)
 
-def deliverAll (env : Env) (dec : Nat → Bytes → Dec) (r : Registry) (data : Bytes) : List Nat → Out
-  | [] => ([], none)
-  | l :: ls => Out.andThen (deliverLater env dec r l data) fun _ => deliverAll env dec r data ls
+/-- Endpoint._deliver_later -/
+def deliverLater (env : Env) (dec : Nat → Bytes → Dec) (lk : Except Exn (Option Nat)) (r : Registry) (l : Nat)
+    (data : Bytes) : Out :=
+  if deliverCond r l data then listenerOnPacket env dec lk r.table l data else ([], none)
 
 /-- the listeners notify_listeners iterates over -/
 def recipients (r : Registry) (data : Bytes) : List Nat :=
   (lookupPrefix r.prefixMap (data.take Gen.prefixLen)).getD r.listeners
 
-/-- Endpoint.notify_listeners -/
-def notify (env : Env) (dec : Nat → Bytes → Dec) (r : Registry) (data : Bytes) : Out :=
-  deliverAll env dec r data (recipients r data)
+/-- state of one `for listener in listeners` loop.  `pending` is what is left of the list OBJECT being iterated;
+    `attached` says whether that object is still the live one inside the endpoint: add_listener appends to the live lists
+    in place (so the running loop sees the new listener), whereas remove_listener and add_prefix_listener (for the same
+    prefix) build NEW lists, after which the running loop is unaffected by later registrations. -/
+structure DS where
+  reg : Registry
+  net : NetS
+  attached : Bool
+  pending : List Nat
+deriving Inhabited
+
+/-- which list object is iterated: `some p` = the prefix list of `p`, `none` = `_listeners` -/
+def iterKey (r : Registry) (data : Bytes) : Option Bytes :=
+  if (lookupPrefix r.prefixMap (data.take Gen.prefixLen)).isSome then some (data.take Gen.prefixLen) else none
+
+def applyOp (key : Option Bytes) (s : DS) : RegOp → DS
+  | .add x => { s with reg := s.reg.addListener x, pending := if s.attached then s.pending ++ [x] else s.pending }
+  | .addp x q =>
+    match s.reg.addPrefixListener x q with
+    | none => s                       -- RuntimeError inside the listener (wrong prefix length): registry unchanged
+    | some r' => { s with reg := r', attached := s.attached && !(key == some q) }
+  | .rm x => { s with reg := s.reg.removeListener x, attached := false }
+  | .setOpen b => { s with reg := { s.reg with isOpen := b } }
+
+def hasSender : List Ev → Bool
+  | [] => false
+  | .sender _ _ :: _ => true
+  | _ :: rest => hasSender rest
+
+/-- what one iteration of the loop observes: `_deliver_later(listener, packet)` -/
+def stepOut (env : Env) (dec : Nat → Bytes → Dec) (src data : Bytes) (s : DS) (l : Nat) : Out :=
+  if deliverCond s.reg l data then listenerOnPacket env dec (s.net.lookup src).1 s.reg.table l data else ([], none)
+
+/-- the state after that iteration: the Network changes only if a Community.on_packet actually ran the sender lookup;
+    the registry calls the listener made are applied in order -/
+def stepState (env : Env) (src data : Bytes) (key : Option Bytes) (s : DS) (l : Nat) (rest : List Nat) (out : Out) : DS :=
+  (if deliverCond s.reg l data then env.effects l data else []).foldl (applyOp key)
+    { s with net := if hasSender out.1 then (s.net.lookup src).2 else s.net, pending := rest }
+
+/-- the loop of Endpoint.notify_listeners with re-entrant registry calls and the shared Network.
+    `fuel` only makes the definition structural (a listener that registers a new listener on every call would loop
+    forever in the code as well). -/
+def dispatch (env : Env) (dec : Nat → Bytes → Dec) (src data : Bytes) (key : Option Bytes) : Nat → DS → Out × DS
+  | 0, s => (([], none), s)
+  | fuel + 1, s =>
+    match s.pending with
+    | [] => (([], none), s)
+    | l :: rest =>
+      match (stepOut env dec src data s l).2 with
+      | some e => (((stepOut env dec src data s l).1, some e), stepState env src data key s l rest (stepOut env dec src data s l))
+      | none =>
+        (((stepOut env dec src data s l).1 ++
+            (dispatch env dec src data key fuel (stepState env src data key s l rest (stepOut env dec src data s l))).1.1,
+          (dispatch env dec src data key fuel (stepState env src data key s l rest (stepOut env dec src data s l))).1.2),
+         (dispatch env dec src data key fuel (stepState env src data key s l rest (stepOut env dec src data s l))).2)
+
+def initDS (r : Registry) (net : NetS) (data : Bytes) : DS :=
+  { reg := r, net := net, attached := true, pending := recipients r data }
+
+/-- Endpoint.notify_listeners((src, data)) -/
+def notify (env : Env) (dec : Nat → Bytes → Dec) (fuel : Nat) (r : Registry) (net : NetS) (src data : Bytes) : Out × DS :=
+  dispatch env dec src data (iterKey r data) fuel (initDS r net data)
 
 /-! ### Network.load_snapshot -/
 
